@@ -10,113 +10,118 @@ variables stay what the native loop ended with.
 namespace Pysnark
 
 /-- a round in progress, the loop is still running natively; `E`: the native variables -/
-structure LoopRun (E : NEnv) (ctx : BCtx) (vals : Vals) (s : St) : Prop where
+structure LoopRun (r : Nat) (E : NEnv) (ctx : BCtx) (vals : Vals) (s : St) : Prop where
   isIf : ctx.isIf = false
   og : LiveT ctx.origguard
   cond : ctx.cond.value = 1
-  live : Live s
-  ref : RefV vals E
+  live : Live r s
+  ref : RefV r vals E
   nd : ∀ nd0, ctx.nodefvals = some nd0 → nd0 = []
 
 /-- a round in progress, the native loop has ended with `EF` -/
-structure LoopStop (EF : NEnv) (ctx : BCtx) (vals : Vals) : Prop where
+structure LoopStop (r : Nat) (EF : NEnv) (ctx : BCtx) (vals : Vals) : Prop where
   isIf : ctx.isIf = false
   og : LiveT ctx.origguard
   cond : ctx.cond.value = 0
-  bak : RefV ctx.bak EF
+  bak : RefV r ctx.bak EF
   mono : ∀ x, ctx.bak.has x = true → vals.has x = true
   nd : ∀ nd0, ctx.nodefvals = some nd0 → nd0 = []
 
-theorem LoopStop.mono' {EF : NEnv} {ctx : BCtx} {vals vals' : Vals} (hp : LoopStop EF ctx vals)
-    (h : ∀ x, vals.has x = true → vals'.has x = true) : LoopStop EF ctx vals' :=
+theorem LoopStop.mono' {r : Nat} {EF : NEnv} {ctx : BCtx} {vals vals' : Vals} (hp : LoopStop r EF ctx vals)
+    (h : ∀ x, vals.has x = true → vals'.has x = true) : LoopStop r EF ctx vals' :=
   ⟨hp.isIf, hp.og, hp.cond, hp.bak, fun x hx => h x (hp.mono x hx), hp.nd⟩
 
-theorem whileExit_run {E : NEnv} {ctx ctx1 : BCtx} {bv bv1 : BV} {s s1 : St} (hp : LoopRun E ctx bv.vals s)
+theorem whileExit_run {r : Nat} {E : NEnv} {ctx ctx1 : BCtx} {bv bv1 : BV} {s s1 : St} (hp : LoopRun r E ctx bv.vals s)
     (h : whileExit ctx bv s = .ok ((ctx1, bv1), s1)) :
-    Live s1 ∧ RefV bv1.vals E ∧ ctx1.isIf = false ∧ ctx1.cond.value = 1 ∧ ctx1.nodefvals = some [] := by
+    Live r s1 ∧ RefV r bv1.vals E ∧ ctx1.isIf = false ∧ ctx1.cond.value = 1 ∧ ctx1.nodefvals = some [] := by
   obtain ⟨hx, hemp⟩ := whileExit_ok h
   obtain ⟨e1, _, e3, _, _, _⟩ := exit_struct hx
-  obtain ⟨hl, nd, hn, hv, _, _⟩ := exit_live hp.cond hp.og hx
+  obtain ⟨hl, nd, hn, hv, _, _, hbok⟩ := exit_live hp.cond hp.og hp.live.res hx
   have hnil : nd = [] := by
     simp only [hn, Option.getD_some] at hemp
     exact List.isEmpty_iff.mp hemp
   subst hnil
-  exact ⟨hl, fun x => ((view_nil _ x).symm.trans (hv x)).trans (hp.ref x), e1 ▸ hp.isIf, e3 ▸ hp.cond, hn⟩
+  exact ⟨hl, ⟨fun x => ((view_nil r _ x).symm.trans (hv x)).trans (hp.ref.eq x), (hbok hp.ref.bok).2⟩,
+    e1 ▸ hp.isIf, e3 ▸ hp.cond, hn⟩
 
-theorem whileExit_stop {EF : NEnv} {ctx ctx1 : BCtx} {bv bv1 : BV} {s s1 : St} (hp : LoopStop EF ctx bv.vals)
-    (h : whileExit ctx bv s = .ok ((ctx1, bv1), s1)) :
-    Live s1 ∧ RefV bv1.vals EF ∧ ctx1.isIf = false ∧ ctx1.cond.value = 0 ∧ ctx1.nodefvals = some [] := by
+theorem whileExit_stop {r : Nat} {EF : NEnv} {ctx ctx1 : BCtx} {bv bv1 : BV} {s s1 : St} (hp : LoopStop r EF ctx bv.vals)
+    (hres : s.resolution = r) (h : whileExit ctx bv s = .ok ((ctx1, bv1), s1)) :
+    Live r s1 ∧ RefV r bv1.vals EF ∧ ctx1.isIf = false ∧ ctx1.cond.value = 0 ∧ ctx1.nodefvals = some [] := by
   obtain ⟨hx, hemp⟩ := whileExit_ok h
   obtain ⟨e1, _, e3, _, _, _⟩ := exit_struct hx
-  obtain ⟨hl, nd, hn, hv, _, _⟩ := exit_dead hp.cond hp.og hp.mono
+  obtain ⟨hl, nd, hn, hv, _, _, hbok⟩ := exit_dead hp.cond hp.og hres hp.mono
     (fun nd0 h0 => by rw [hp.nd nd0 h0]; intro x hx; simp [Vals.has, Vals.get?] at hx) hx
   have hnil : nd = [] := by
     simp only [hn, Option.getD_some] at hemp
     exact List.isEmpty_iff.mp hemp
   subst hnil
-  exact ⟨hl, fun x => (hv x).trans (hp.bak x), e1 ▸ hp.isIf, e3 ▸ hp.cond, hn⟩
+  exact ⟨hl, ⟨fun x => (hv x).trans (hp.bak.eq x), hbok hp.bak.bok⟩, e1 ▸ hp.isIf, e3 ▸ hp.cond, hn⟩
 
 /-- `_while(nw)` in a running loop: the loop goes on iff `nw` -/
-theorem whileNext_run {E : NEnv} {ctx ctx' : BCtx} {nw : LinComb} {bv bv' : BV} {s s' : St}
-    (hp : LoopRun E ctx bv.vals s) (h : whileNext ctx nw bv s = .ok ((ctx', bv'), s')) :
-    (nw.value = 1 → LoopRun E ctx' bv'.vals s') ∧ (nw.value = 0 → LoopStop E ctx' bv'.vals) := by
+theorem whileNext_run {r : Nat} {E : NEnv} {ctx ctx' : BCtx} {nw : LinComb} {bv bv' : BV} {s s' : St}
+    (hp : LoopRun r E ctx bv.vals s) (h : whileNext ctx nw bv s = .ok ((ctx', bv'), s')) :
+    (nw.value = 1 → LoopRun r E ctx' bv'.vals s') ∧ (nw.value = 0 → LoopStop r E ctx' bv'.vals) ∧ s'.resolution = r := by
   obtain ⟨ctx1, s1, c, s2, he, hc, hen⟩ := whileNext_ok h
   obtain ⟨hl, hr, hif, hcv, hnd⟩ := whileExit_run hp he
   obtain ⟨sm, vc, _⟩ := andBB_val hc
-  obtain ⟨rfl, hlt, hl1⟩ := enter_live (hl.same sm) hen
-  constructor
+  obtain ⟨rfl, hlt, hl1, hres⟩ := enter_live (hl.same sm) hen
+  refine ⟨?_, ?_, hres⟩
   · intro h1
     have : c.value = 1 := by rw [vc, hcv, h1]; rfl
     exact ⟨hif, hlt, this, hl1 this, hr, fun nd0 h0 => by rw [hnd] at h0; cases h0; rfl⟩
   · intro h0
     have : c.value = 0 := by rw [vc, hcv, h0]; rfl
-    exact ⟨hif, hlt, this, hr, fun x hx => hx, fun nd0 h0 => by rw [hnd] at h0; cases h0; rfl⟩
+    exact ⟨hif, hlt, this, hr.backup, fun x hx => by rw [← Vals.has_backup]; exact hx,
+      fun nd0 h0 => by rw [hnd] at h0; cases h0; rfl⟩
 
 /-- `_while(nw)` in a loop that has ended: it stays ended -/
-theorem whileNext_stop {EF : NEnv} {ctx ctx' : BCtx} {nw : LinComb} {bv bv' : BV} {s s' : St}
-    (hp : LoopStop EF ctx bv.vals) (h : whileNext ctx nw bv s = .ok ((ctx', bv'), s')) :
-    LoopStop EF ctx' bv'.vals := by
+theorem whileNext_stop {r : Nat} {EF : NEnv} {ctx ctx' : BCtx} {nw : LinComb} {bv bv' : BV} {s s' : St}
+    (hp : LoopStop r EF ctx bv.vals) (hres : s.resolution = r) (h : whileNext ctx nw bv s = .ok ((ctx', bv'), s')) :
+    LoopStop r EF ctx' bv'.vals ∧ s'.resolution = r := by
   obtain ⟨ctx1, s1, c, s2, he, hc, hen⟩ := whileNext_ok h
-  obtain ⟨hl, hr, hif, hcv, hnd⟩ := whileExit_stop hp he
+  obtain ⟨hl, hr, hif, hcv, hnd⟩ := whileExit_stop hp hres he
   obtain ⟨sm, vc, _⟩ := andBB_val hc
-  obtain ⟨rfl, hlt, _⟩ := enter_live (hl.same sm) hen
+  obtain ⟨rfl, hlt, _, hres'⟩ := enter_live (hl.same sm) hen
   have : c.value = 0 := by rw [vc, hcv]; ring
-  exact ⟨hif, hlt, this, hr, fun x hx => hx, fun nd0 h0 => by rw [hnd] at h0; cases h0; rfl⟩
+  exact ⟨⟨hif, hlt, this, hr.backup, fun x hx => by rw [← Vals.has_backup]; exact hx,
+    fun nd0 h0 => by rw [hnd] at h0; cases h0; rfl⟩, hres'⟩
 
 /-- `WhileContext(c)` from a live state -/
-theorem whileNew_live {E : NEnv} {c : LinComb} {bv : BV} {ctx : BCtx} {s s' : St} (hl : Live s) (hr : RefV bv.vals E)
+theorem whileNew_live {r : Nat} {E : NEnv} {c : LinComb} {bv : BV} {ctx : BCtx} {s s' : St} (hl : Live r s) (hr : RefV r bv.vals E)
     (h : whileNew c bv s = .ok (ctx, s')) :
-    (c.value = 1 → LoopRun E ctx bv.vals s') ∧ (c.value = 0 → LoopStop E ctx bv.vals) := by
+    (c.value = 1 → LoopRun r E ctx bv.vals s') ∧ (c.value = 0 → LoopStop r E ctx bv.vals) ∧ BoolLC c ∧ s'.resolution = r := by
   obtain ⟨og, hg, rfl⟩ := whileNew_ok h
-  obtain ⟨rfl, hl1⟩ := addGuard_live hl hg
+  obtain ⟨rfl, hcb, hl1⟩ := addGuard_live hl hg
   exact ⟨fun h1 => ⟨rfl, hl.triple, h1, hl1 h1, hr, fun nd0 h0 => by cases h0⟩,
-    fun h0 => ⟨rfl, hl.triple, h0, hr, fun x hx => hx, fun nd0 h0 => by cases h0⟩⟩
+    fun h0 => ⟨rfl, hl.triple, h0, hr.backup, fun x hx => by rw [← Vals.has_backup]; exact hx, fun nd0 h0 => by cases h0⟩,
+    hcb, (addGuard_res hg).trans hl.res⟩
 
 /-! ## with the stack -/
 /-- the context on top of the stack is a loop in one of the two states -/
-def TopRun (E : NEnv) (stk : List BCtx) (bs : BSt) (s : St) : Prop :=
-  ∃ ctx, bs.stack = ctx :: stk ∧ LoopRun E ctx bs.bv.vals s
-def TopStop (EF : NEnv) (stk : List BCtx) (bs : BSt) : Prop :=
-  ∃ ctx, bs.stack = ctx :: stk ∧ LoopStop EF ctx bs.bv.vals
+def TopRun (r : Nat) (E : NEnv) (stk : List BCtx) (bs : BSt) (s : St) : Prop :=
+  ∃ ctx, bs.stack = ctx :: stk ∧ LoopRun r E ctx bs.bv.vals s
+def TopStop (r : Nat) (EF : NEnv) (stk : List BCtx) (bs : BSt) (s : St) : Prop :=
+  (∃ ctx, bs.stack = ctx :: stk ∧ LoopStop r EF ctx bs.bv.vals) ∧ s.resolution = r
 
-theorem bWhileNext_run {E : NEnv} {stk : List BCtx} {bs bs' : BSt} {nw : LinComb} {s s' : St}
-    (hp : TopRun E stk bs s) (h : bWhileNext (.lcb nw) bs s = .ok (bs', s')) :
-    (nw.value = 1 → TopRun E stk bs' s') ∧ (nw.value = 0 → TopStop E stk bs') := by
+theorem bWhileNext_run {r : Nat} {E : NEnv} {stk : List BCtx} {bs bs' : BSt} {cond : Val} {s s' : St}
+    (hp : TopRun r E stk bs s) (h : bWhileNext cond bs s = .ok (bs', s')) :
+    ∃ nw, cond = .lcb nw ∧ (nw.value = 1 → TopRun r E stk bs' s') ∧ (nw.value = 0 → TopStop r E stk bs' s') := by
   obtain ⟨ctx0, hs0, hr⟩ := hp
   obtain ⟨ctx, rest, c, ctx', bv', hs, _, hc, hw, rfl⟩ := bWhileNext_ok h
-  rw [hs0] at hs; cases hs; cases hc
-  obtain ⟨a, b⟩ := whileNext_run hr hw
-  exact ⟨fun h1 => ⟨ctx', rfl, a h1⟩, fun h0 => ⟨ctx', rfl, b h0⟩⟩
+  rw [hs0] at hs; cases hs
+  obtain ⟨a, b, hres⟩ := whileNext_run hr hw
+  exact ⟨c, hc, fun h1 => ⟨ctx', rfl, a h1⟩, fun h0 => ⟨⟨ctx', rfl, b h0⟩, hres⟩⟩
 
-theorem bWhileNext_stop {EF : NEnv} {stk : List BCtx} {bs bs' : BSt} {cond : Val} {s s' : St}
-    (hp : TopStop EF stk bs) (h : bWhileNext cond bs s = .ok (bs', s')) : TopStop EF stk bs' := by
-  obtain ⟨ctx0, hs0, hr⟩ := hp
+theorem bWhileNext_stop {r : Nat} {EF : NEnv} {stk : List BCtx} {bs bs' : BSt} {cond : Val} {s s' : St}
+    (hp : TopStop r EF stk bs s) (h : bWhileNext cond bs s = .ok (bs', s')) : TopStop r EF stk bs' s' := by
+  obtain ⟨⟨ctx0, hs0, hr⟩, hres⟩ := hp
   obtain ⟨ctx, rest, c, ctx', bv', hs, _, _, hw, rfl⟩ := bWhileNext_ok h
   rw [hs0] at hs; cases hs
-  exact ⟨ctx', rfl, whileNext_stop hr hw⟩
+  obtain ⟨a, b⟩ := whileNext_stop hr hres hw
+  exact ⟨⟨ctx', rfl, a⟩, b⟩
 
-theorem bEndwhile_run {E : NEnv} {stk : List BCtx} {bs bs' : BSt} {s s' : St} (hp : TopRun E stk bs s)
-    (h : bEndwhile bs s = .ok (bs', s')) : Live s' ∧ RefV bs'.bv.vals E := by
+theorem bEndwhile_run {r : Nat} {E : NEnv} {stk : List BCtx} {bs bs' : BSt} {s s' : St} (hp : TopRun r E stk bs s)
+    (h : bEndwhile bs s = .ok (bs', s')) : Live r s' ∧ RefV r bs'.bv.vals E := by
   obtain ⟨ctx0, hs0, hr⟩ := hp
   obtain ⟨ctx, rest, bv', hs, rfl, hcase⟩ := bEnd_ok (Or.inr h)
   rw [hs0] at hs; cases hs
@@ -125,36 +130,34 @@ theorem bEndwhile_run {E : NEnv} {stk : List BCtx} {bs bs' : BSt} {s s' : St} (h
   · obtain ⟨hl, hv, _⟩ := whileExit_run hr he
     exact ⟨hl, hv⟩
 
-theorem bEndwhile_stop {EF : NEnv} {stk : List BCtx} {bs bs' : BSt} {s s' : St} (hp : TopStop EF stk bs)
-    (h : bEndwhile bs s = .ok (bs', s')) : Live s' ∧ RefV bs'.bv.vals EF := by
-  obtain ⟨ctx0, hs0, hr⟩ := hp
+theorem bEndwhile_stop {r : Nat} {EF : NEnv} {stk : List BCtx} {bs bs' : BSt} {s s' : St} (hp : TopStop r EF stk bs s)
+    (h : bEndwhile bs s = .ok (bs', s')) : Live r s' ∧ RefV r bs'.bv.vals EF := by
+  obtain ⟨⟨ctx0, hs0, hr⟩, hres⟩ := hp
   obtain ⟨ctx, rest, bv', hs, rfl, hcase⟩ := bEnd_ok (Or.inr h)
   rw [hs0] at hs; cases hs
   rcases hcase with ⟨hi, _⟩ | ⟨_, ctx', he⟩
   · rw [hr.isIf] at hi; cases hi
-  · obtain ⟨hl, hv, _⟩ := whileExit_stop hr he
+  · obtain ⟨hl, hv, _⟩ := whileExit_stop hr hres he
     exact ⟨hl, hv⟩
 
-theorem bWhilePush_live {E : NEnv} {bs bs' : BSt} {c : LinComb} {s s' : St} (hl : Live s) (hr : RefV bs.bv.vals E)
-    (h : bWhilePush (.lcb c) bs s = .ok (bs', s')) :
-    (c.value = 1 → TopRun E bs.stack bs' s') ∧ (c.value = 0 → TopStop E bs.stack bs') := by
+theorem bWhilePush_live {r : Nat} {E : NEnv} {bs bs' : BSt} {cond : Val} {s s' : St} (hl : Live r s) (hr : RefV r bs.bv.vals E)
+    (h : bWhilePush cond bs s = .ok (bs', s')) :
+    ∃ c, cond = .lcb c ∧ BoolLC c ∧ (c.value = 1 → TopRun r E bs.stack bs' s') ∧ (c.value = 0 → TopStop r E bs.stack bs' s') := by
   obtain ⟨c', ctx, hc, hn, rfl⟩ := bWhilePush_ok h
-  cases hc
-  obtain ⟨a, b⟩ := whileNew_live hl hr hn
-  exact ⟨fun h1 => ⟨ctx, rfl, a h1⟩, fun h0 => ⟨ctx, rfl, b h0⟩⟩
+  obtain ⟨a, b, hcb, hres⟩ := whileNew_live hl hr hn
+  exact ⟨c', hc, hcb, fun h1 => ⟨ctx, rfl, a h1⟩, fun h0 => ⟨⟨ctx, rfl, b h0⟩, hres⟩⟩
 
 /-- what is assumed of the body of a loop (instantiated with the induction hypotheses) -/
-structure BodyOk (bodyT : BSt → M BSt) (bodyN : NEnv → NM NEnv) : Prop where
-  live : ∀ bs s bs' s' E, Live s → RefV bs.bv.vals E → bodyT bs s = .ok (bs', s') → Post (bodyN E) bs'.bv.vals s'
-  struct : ∀ bs s bs' s', bodyT bs s = .ok (bs', s') →
-    bs'.stack = bs.stack ∧ ∀ x, bs.bv.vals.has x = true → bs'.bv.vals.has x = true
+structure BodyOk (r : Nat) (bodyT : BSt → M BSt) (bodyN : NEnv → NM NEnv) : Prop where
+  live : ∀ bs s bs' s' E, Live r s → RefV r bs.bv.vals E → bodyT bs s = .ok (bs', s') → Post r (bodyN E) bs'.bv.vals s'
+  struct : ∀ bs s bs' s', bodyT bs s = .ok (bs', s') → Struct bs bs' s s'
 
-theorem TopStop.body {EF : NEnv} {stk : List BCtx} {bs bs' : BSt} {s s' : St} {bodyT : BSt → M BSt}
-    {bodyN : NEnv → NM NEnv} (hb : BodyOk bodyT bodyN) (hp : TopStop EF stk bs)
-    (h : bodyT bs s = .ok (bs', s')) : TopStop EF stk bs' := by
-  obtain ⟨ctx, hs, hr⟩ := hp
-  obtain ⟨hst, hdom⟩ := hb.struct _ _ _ _ h
-  exact ⟨ctx, by rw [hst, hs], hr.mono' hdom⟩
+theorem TopStop.body {r : Nat} {EF : NEnv} {stk : List BCtx} {bs bs' : BSt} {s s' : St} {bodyT : BSt → M BSt}
+    {bodyN : NEnv → NM NEnv} (hb : BodyOk r bodyT bodyN) (hp : TopStop r EF stk bs s)
+    (h : bodyT bs s = .ok (bs', s')) : TopStop r EF stk bs' s' := by
+  obtain ⟨⟨ctx, hs, hr⟩, hres⟩ := hp
+  obtain ⟨⟨hst, hdom⟩, hr'⟩ := hb.struct _ _ _ _ h
+  exact ⟨⟨ctx, by rw [hst, hs], hr.mono' hdom⟩, hr'.trans hres⟩
 
 /-! ## `while` -/
 
@@ -178,41 +181,43 @@ theorem nWhile_eq (cond : NEnv → NM Bool) (body : NEnv → NM NEnv) (brk : NEn
 
 /-- the outcome of the rounds: a loop on top of the stack, still running with the native result
 so far, or ended with the native result -/
-def LoopPost (r : NM NEnv) (stk : List BCtx) (bs : BSt) (s : St) : Prop :=
-  match r with
-  | .ok E => TopRun E stk bs s ∨ TopStop E stk bs
-  | .error .uncapped => True
-  | .error .name => False
+def LoopPost (r : Nat) (res : NM NEnv) (stk : List BCtx) (bs : BSt) (s : St) : Prop :=
+  match res with
+  | .ok E => TopRun r E stk bs s ∨ TopStop r E stk bs s
+  | .error x => ErrOk x
 
-theorem breakStep_stop {EF : NEnv} {stk : List BCtx} {env : BEnv} {brk : Option BCond} {bs bs' : BSt} {s s' : St}
-    (hp : TopStop EF stk bs) (h : breakStep env brk bs s = .ok (bs', s')) : TopStop EF stk bs' := by
+theorem breakStep_stop {r : Nat} {EF : NEnv} {stk : List BCtx} {env : BEnv} {brk : Option BCond} {bs bs' : BSt} {s s' : St}
+    (hp : TopStop r EF stk bs s) (h : breakStep env brk bs s = .ok (bs', s')) : TopStop r EF stk bs' s' := by
   unfold breakStep at h
   cases brk with
   | none => obtain ⟨rfl, rfl⟩ := pure_ok' h; exact hp
   | some bc =>
-    obtain ⟨bcv, t4, _, h⟩ := bind_ok.mp h
-    obtain ⟨cb, nc, t5, _, _, h⟩ := bBreakif_ok h
-    exact bWhileNext_stop hp h
+    obtain ⟨bcv, t4, h1, h⟩ := bind_ok.mp h
+    obtain ⟨cb, nc, t5, _, hn, h⟩ := bBreakif_ok h
+    have hp' : TopStop r EF stk bs t5 := ⟨hp.1, by rw [(boolNot_val hn).1.res, (evalC_same h1).res]; exact hp.2⟩
+    exact bWhileNext_stop hp' h
 
-theorem whileRound_stop {EF : NEnv} {stk : List BCtx} {env : BEnv} {bodyT : BSt → M BSt} {bodyN : NEnv → NM NEnv}
-    (hb : BodyOk bodyT bodyN) {c : BCond} {brk : Option BCond} {bs bs' : BSt} {s s' : St}
-    (hp : TopStop EF stk bs) (h : whileRound env bodyT c brk bs s = .ok (bs', s')) : TopStop EF stk bs' := by
+theorem whileRound_stop {r : Nat} {EF : NEnv} {stk : List BCtx} {env : BEnv} {bodyT : BSt → M BSt} {bodyN : NEnv → NM NEnv}
+    (hb : BodyOk r bodyT bodyN) {c : BCond} {brk : Option BCond} {bs bs' : BSt} {s s' : St}
+    (hp : TopStop r EF stk bs s) (h : whileRound env bodyT c brk bs s = .ok (bs', s')) : TopStop r EF stk bs' s' := by
   unfold whileRound at h
   obtain ⟨b1, t1, h1, h⟩ := bind_ok.mp h
   obtain ⟨b2, t2, h2, h⟩ := bind_ok.mp h
-  obtain ⟨cn, t3, _, h⟩ := bind_ok.mp h
-  exact bWhileNext_stop (breakStep_stop (hp.body hb h1) h2) h
+  obtain ⟨cn, t3, h3, h⟩ := bind_ok.mp h
+  have hp2 := breakStep_stop (hp.body hb h1) h2
+  have hp3 : TopStop r EF stk b2 t3 := ⟨hp2.1, by rw [(evalC_same h3).res]; exact hp2.2⟩
+  exact bWhileNext_stop hp3 h
 
-theorem while_iter_stop {EF : NEnv} {stk : List BCtx} {env : BEnv} {bodyT : BSt → M BSt} {bodyN : NEnv → NM NEnv}
-    (hb : BodyOk bodyT bodyN) {c : BCond} {brk : Option BCond} (n i : Nat) {bs bs' : BSt} {s s' : St}
-    (hp : TopStop EF stk bs)
-    (h : iterM n (fun _ bs => whileRound env bodyT c brk bs) i bs s = .ok (bs', s')) : TopStop EF stk bs' :=
-  iterM_inv (fun b _ => TopStop EF stk b) _ (fun _ _ _ _ _ hp' hs => whileRound_stop hb hp' hs) n i bs s bs' s' hp h
+theorem while_iter_stop {r : Nat} {EF : NEnv} {stk : List BCtx} {env : BEnv} {bodyT : BSt → M BSt} {bodyN : NEnv → NM NEnv}
+    (hb : BodyOk r bodyT bodyN) {c : BCond} {brk : Option BCond} (n i : Nat) {bs bs' : BSt} {s s' : St}
+    (hp : TopStop r EF stk bs s)
+    (h : iterM n (fun _ bs => whileRound env bodyT c brk bs) i bs s = .ok (bs', s')) : TopStop r EF stk bs' s' :=
+  iterM_inv (fun b t => TopStop r EF stk b t) _ (fun _ _ _ _ _ hp' hs => whileRound_stop hb hp' hs) n i bs s bs' s' hp h
 
 /-- `_breakif(brk)` in a running loop -/
-theorem breakStep_run {E : NEnv} {stk : List BCtx} {env : BEnv} {nc : NCtx} (hi : RefI env nc) {brk : Option BCond}
-    {bs bs' : BSt} {s s' : St} (hp : TopRun E stk bs s) (h : breakStep env brk bs s = .ok (bs', s')) :
-    ∃ b, nBrk nc brk E = .ok b ∧ (b = false → TopRun E stk bs' s') ∧ (b = true → TopStop E stk bs') := by
+theorem breakStep_run {r : Nat} {E : NEnv} {stk : List BCtx} {env : BEnv} {nc : NCtx} (hi : RefI r env nc) {brk : Option BCond}
+    {bs bs' : BSt} {s s' : St} (hp : TopRun r E stk bs s) (h : breakStep env brk bs s = .ok (bs', s')) :
+    ∃ b, nBrk nc brk E = .ok b ∧ (b = false → TopRun r E stk bs' s') ∧ (b = true → TopStop r E stk bs' s') := by
   unfold breakStep at h
   cases brk with
   | none =>
@@ -222,22 +227,23 @@ theorem breakStep_run {E : NEnv} {stk : List BCtx} {env : BEnv} {nc : NCtx} (hi 
     obtain ⟨bcv, t1, h1, h⟩ := bind_ok.mp h
     obtain ⟨cb, nc', t2, hcb, hnot, h⟩ := bBreakif_ok h
     obtain ⟨ctx, hs, hr⟩ := hp
-    obtain ⟨sm1, b, r, hnat, hr', vr⟩ := evalC_live hi hr.ref hr.live h1
-    rw [hcb] at hr'; cases hr'
+    obtain ⟨sm1, b, hnat, hvr⟩ := evalC_live hi hr.ref hr.live h1
+    have vr := hvr cb hcb
     obtain ⟨sm2, v2, _⟩ := boolNot_val hnot
-    have hp2 : TopRun E stk bs t2 := ⟨ctx, hs, ⟨hr.isIf, hr.og, hr.cond, (hr.live.same sm1).same sm2, hr.ref, hr.nd⟩⟩
-    obtain ⟨a1, a0⟩ := bWhileNext_run hp2 h
+    have hp2 : TopRun r E stk bs t2 := ⟨ctx, hs, ⟨hr.isIf, hr.og, hr.cond, (hr.live.same sm1).same sm2, hr.ref, hr.nd⟩⟩
+    obtain ⟨nw, hnw, a1, a0⟩ := bWhileNext_run hp2 h
+    cases hnw
     refine ⟨b, hnat, ?_, ?_⟩
     · intro hb; subst hb
       exact a1 (by rw [v2, vr]; rfl)
     · intro hb; subst hb
       exact a0 (by rw [v2, vr]; rfl)
 
-theorem while_iter_run {stk : List BCtx} {env : BEnv} {nc : NCtx} (hi : RefI env nc) {bodyT : BSt → M BSt}
-    {bodyN : NEnv → NM NEnv} (hb : BodyOk bodyT bodyN) {c : BCond} {brk : Option BCond} :
-    ∀ (n i : Nat) {E : NEnv} {bs bs' : BSt} {s s' : St}, TopRun E stk bs s →
+theorem while_iter_run {r : Nat} {stk : List BCtx} {env : BEnv} {nc : NCtx} (hi : RefI r env nc) {bodyT : BSt → M BSt}
+    {bodyN : NEnv → NM NEnv} (hb : BodyOk r bodyT bodyN) {c : BCond} {brk : Option BCond} :
+    ∀ (n i : Nat) {E : NEnv} {bs bs' : BSt} {s s' : St}, TopRun r E stk bs s →
       iterM n (fun _ bs => whileRound env bodyT c brk bs) i bs s = .ok (bs', s') →
-      LoopPost (nWhileRun (fun e => nEvalC nc e c) bodyN (nBrk nc brk) n E) stk bs' s'
+      LoopPost r (nWhileRun (fun e => nEvalC nc e c) bodyN (nBrk nc brk) n E) stk bs' s'
   | 0, i, E, bs, bs', s, s', hp, h => by
     unfold iterM at h
     obtain ⟨rfl, rfl⟩ := pure_ok' h
@@ -251,32 +257,32 @@ theorem while_iter_run {stk : List BCtx} {env : BEnv} {nc : NCtx} (hi : RefI env
     obtain ⟨cn, t4, h4, hround⟩ := bind_ok.mp hround
     obtain ⟨ctx, hs, hr⟩ := hp
     have hbody := hb.live _ _ _ _ E hr.live hr.ref h1
-    obtain ⟨hst, _⟩ := hb.struct _ _ _ _ h1
+    obtain ⟨⟨hst, _⟩, _⟩ := hb.struct _ _ _ _ h1
     simp only [nWhileRun]
     cases hN : bodyN E with
     | error x =>
       rw [hN] at hbody
-      cases x with
-      | name => exact hbody.elim
-      | uncapped => trivial
+      exact hbody
     | ok E1 =>
       rw [hN] at hbody
       obtain ⟨hl1, hr1⟩ := hbody
-      have hp1 : TopRun E1 stk b1 t1 := ⟨ctx, by rw [hst, hs], ⟨hr.isIf, hr.og, hr.cond, hl1, hr1, hr.nd⟩⟩
+      have hp1 : TopRun r E1 stk b1 t1 := ⟨ctx, by rw [hst, hs], ⟨hr.isIf, hr.og, hr.cond, hl1, hr1, hr.nd⟩⟩
       obtain ⟨bb, hbrk, hgo, hstop⟩ := breakStep_run hi hp1 h2
-      show LoopPost (do let b ← nBrk nc brk E1; if b then pure E1 else nWhile _ bodyN (nBrk nc brk) n E1) stk bs' s'
+      show LoopPost r (do let b ← nBrk nc brk E1; if b then pure E1 else nWhile _ bodyN (nBrk nc brk) n E1) stk bs' s'
       rw [hbrk]
       cases bb with
       | true =>
-        have hp3 := bWhileNext_stop (hstop rfl) hround
+        have hp2 := hstop rfl
+        have hp2' : TopStop r E1 stk b2 t4 := ⟨hp2.1, by rw [(evalC_same h4).res]; exact hp2.2⟩
+        have hp3 := bWhileNext_stop hp2' hround
         exact Or.inr (while_iter_stop hb n (i+1) hp3 hrest)
       | false =>
         obtain ⟨ctx2, hs2, hr2⟩ := hgo rfl
-        obtain ⟨sm4, b4, r4, hnat4, hcn, v4⟩ := evalC_live hi hr2.ref hr2.live h4
-        subst hcn
-        have hp2' : TopRun E1 stk b2 t4 := ⟨ctx2, hs2, ⟨hr2.isIf, hr2.og, hr2.cond, hr2.live.same sm4, hr2.ref, hr2.nd⟩⟩
-        obtain ⟨a1, a0⟩ := bWhileNext_run hp2' hround
-        show LoopPost (nWhile _ bodyN (nBrk nc brk) n E1) stk bs' s'
+        obtain ⟨sm4, b4, hnat4, hv4⟩ := evalC_live hi hr2.ref hr2.live h4
+        have hp2' : TopRun r E1 stk b2 t4 := ⟨ctx2, hs2, ⟨hr2.isIf, hr2.og, hr2.cond, hr2.live.same sm4, hr2.ref, hr2.nd⟩⟩
+        obtain ⟨nw, hnw, a1, a0⟩ := bWhileNext_run hp2' hround
+        have v4 := hv4 nw hnw
+        show LoopPost r (nWhile _ bodyN (nBrk nc brk) n E1) stk bs' s'
         rw [nWhile_eq]
         simp only [hnat4]
         cases b4 with
@@ -284,21 +290,21 @@ theorem while_iter_run {stk : List BCtx} {env : BEnv} {nc : NCtx} (hi : RefI env
         | false => exact Or.inr (while_iter_stop hb n (i+1) (a0 (by rw [v4]; rfl)) hrest)
 
 /-- a whole `while` statement -/
-theorem while_stmt {env : BEnv} {nc : NCtx} (hi : RefI env nc) {bodyT : BSt → M BSt}
-    {bodyN : NEnv → NM NEnv} (hb : BodyOk bodyT bodyN) {c : BCond} {brk : Option BCond} {mx : Nat}
-    {E : NEnv} {bs bs' : BSt} {s s' : St} (hl : Live s) (hr : RefV bs.bv.vals E)
+theorem while_stmt {r : Nat} {env : BEnv} {nc : NCtx} (hi : RefI r env nc) {bodyT : BSt → M BSt}
+    {bodyN : NEnv → NM NEnv} (hb : BodyOk r bodyT bodyN) {c : BCond} {brk : Option BCond} {mx : Nat}
+    {E : NEnv} {bs bs' : BSt} {s s' : St} (hl : Live r s) (hr : RefV r bs.bv.vals E)
     (h : (do let c0 ← evalC env bs.bv c
              let bs ← bWhilePush c0 bs
              let bs ← iterM mx (fun _ bs => whileRound env bodyT c brk bs) 0 bs
              bEndwhile bs) s = .ok (bs', s')) :
-    Post (nWhile (fun e => nEvalC nc e c) bodyN (nBrk nc brk) mx E) bs'.bv.vals s' := by
+    Post r (nWhile (fun e => nEvalC nc e c) bodyN (nBrk nc brk) mx E) bs'.bv.vals s' := by
   obtain ⟨c0, s1, h1, ha⟩ := bind_ok.mp h
   obtain ⟨bs1, s2, h2, hb'⟩ := bind_ok.mp ha
   obtain ⟨bs2, s3, h3, hend⟩ := bind_ok.mp hb'
   clear h ha hb'
-  obtain ⟨sm1, b, r, hnat, hc0, vr⟩ := evalC_live hi hr hl h1
-  subst hc0
-  obtain ⟨a1, a0⟩ := bWhilePush_live (hl.same sm1) hr h2
+  obtain ⟨sm1, b, hnat, hvr⟩ := evalC_live hi hr hl h1
+  obtain ⟨cl, hcl, _, a1, a0⟩ := bWhilePush_live (hl.same sm1) hr h2
+  have vr := hvr cl hcl
   rw [nWhile_eq]
   simp only [hnat]
   cases b with
@@ -308,13 +314,11 @@ theorem while_stmt {env : BEnv} {nc : NCtx} (hi : RefI env nc) {bodyT : BSt → 
     exact ⟨x, y⟩
   | true =>
     have hpost := while_iter_run hi hb mx 0 (a1 (by rw [vr]; rfl)) h3
-    show Post (nWhileRun _ bodyN (nBrk nc brk) mx E) bs'.bv.vals s'
+    show Post r (nWhileRun _ bodyN (nBrk nc brk) mx E) bs'.bv.vals s'
     cases hN : nWhileRun (fun e => nEvalC nc e c) bodyN (nBrk nc brk) mx E with
     | error x =>
       rw [hN] at hpost
-      cases x with
-      | name => exact hpost.elim
-      | uncapped => trivial
+      exact hpost
     | ok EF =>
       rw [hN] at hpost
       rcases hpost with hrun | hstop
@@ -330,58 +334,57 @@ namespace Pysnark
 theorem nIter_succ (n : Nat) (f : Nat → NEnv → NM NEnv) (i : Nat) (e : NEnv) :
     nIter (n+1) f i e = (do let e ← f i e; nIter n f (i+1) e) := rfl
 
-theorem neCmp_live {ix : Nat} {st : LinComb} {v : Val} {s s' : St} (hl : Live s)
+theorem neCmp_live {r : Nat} {ix : Nat} {st : LinComb} {v : Val} {s s' : St} (hl : Live r s)
     (h : cmpV .ne (.int ix) (.lc st) s = .ok (v, s')) :
-    Same s s' ∧ ∃ r, v = .lcb r ∧ r.value = if (ix : Int) = st.value then 0 else 1 := by
-  obtain ⟨sm, r, rfl, vr⟩ := cmpV_int_live hl (x := .int ix) (y := .lc st) trivial trivial h
-  refine ⟨sm, r, rfl, ?_⟩
-  rw [vr]; simp only [cmpSem, ival]
+    Same s s' ∧ ∃ l, v = .lcb l ∧ l.value = if (ix : Int) = st.value then 0 else 1 := by
+  obtain ⟨sm, l, rfl, _, vl⟩ := cmpV_int_all (x := .int ix) (y := .lc st) trivial trivial h
+  refine ⟨sm, l, rfl, ?_⟩
+  rw [vl hl]; simp only [cmpSem, ival]
   by_cases hq : (ix : Int) = st.value <;> simp [hq]
 
-theorem forRound_stop {EF : NEnv} {stk : List BCtx} {env : BEnv} {lv : Nat} {stop : Val}
+theorem forRound_stop {r : Nat} {EF : NEnv} {stk : List BCtx} {env : BEnv} {lv : Nat} {st : LinComb}
     {body : BEnv → BSt → M BSt} {bodyN : Nat → NEnv → NM NEnv}
-    (hb : ∀ ix : Nat, BodyOk (body { env with lvs := (lv, (ix : Int)) :: env.lvs }) (bodyN ix))
-    {ix : Nat} {bs bs' : BSt} {s s' : St} (hp : TopStop EF stk bs)
-    (h : forRound env lv stop body ix bs s = .ok (bs', s')) : TopStop EF stk bs' := by
+    (hb : ∀ ix : Nat, BodyOk r (body { env with lvs := (lv, (ix : Int)) :: env.lvs }) (bodyN ix))
+    {ix : Nat} {bs bs' : BSt} {s s' : St} (hp : TopStop r EF stk bs s)
+    (h : forRound env lv (.lc st) body ix bs s = .ok (bs', s')) : TopStop r EF stk bs' s' := by
   unfold forRound at h
-  obtain ⟨c, t1, _, h⟩ := bind_ok.mp h
+  obtain ⟨c, t1, h1, h⟩ := bind_ok.mp h
   obtain ⟨b1, t2, h2, h⟩ := bind_ok.mp h
-  exact (bWhileNext_stop hp h2).body (hb ix) h
+  have hp' : TopStop r EF stk bs t1 :=
+    ⟨hp.1, by rw [(cmpV_int_all (x := .int ix) (y := .lc st) trivial trivial h1).1.res]; exact hp.2⟩
+  exact (bWhileNext_stop hp' h2).body (hb ix) h
 
-theorem for_iter_stop {EF : NEnv} {stk : List BCtx} {env : BEnv} {lv : Nat} {stop : Val}
+theorem for_iter_stop {r : Nat} {EF : NEnv} {stk : List BCtx} {env : BEnv} {lv : Nat} {st : LinComb}
     {body : BEnv → BSt → M BSt} {bodyN : Nat → NEnv → NM NEnv}
-    (hb : ∀ ix : Nat, BodyOk (body { env with lvs := (lv, (ix : Int)) :: env.lvs }) (bodyN ix))
-    (n i : Nat) {bs bs' : BSt} {s s' : St} (hp : TopStop EF stk bs)
-    (h : iterM n (forRound env lv stop body) i bs s = .ok (bs', s')) : TopStop EF stk bs' :=
-  iterM_inv (fun b _ => TopStop EF stk b) _ (fun _ _ _ _ _ hp' hs => forRound_stop hb hp' hs) n i bs s bs' s' hp h
+    (hb : ∀ ix : Nat, BodyOk r (body { env with lvs := (lv, (ix : Int)) :: env.lvs }) (bodyN ix))
+    (n i : Nat) {bs bs' : BSt} {s s' : St} (hp : TopStop r EF stk bs s)
+    (h : iterM n (forRound env lv (.lc st) body) i bs s = .ok (bs', s')) : TopStop r EF stk bs' s' :=
+  iterM_inv (fun b t => TopStop r EF stk b t) _ (fun _ _ _ _ _ hp' hs => forRound_stop hb hp' hs) n i bs s bs' s' hp h
 
-theorem TopRun.body {E : NEnv} {stk : List BCtx} {bs bs' : BSt} {s s' : St} {bodyT : BSt → M BSt}
-    {bodyN : NEnv → NM NEnv} (hb : BodyOk bodyT bodyN) (hp : TopRun E stk bs s)
+theorem TopRun.body {r : Nat} {E : NEnv} {stk : List BCtx} {bs bs' : BSt} {s s' : St} {bodyT : BSt → M BSt}
+    {bodyN : NEnv → NM NEnv} (hb : BodyOk r bodyT bodyN) (hp : TopRun r E stk bs s)
     (h : bodyT bs s = .ok (bs', s')) :
     match bodyN E with
-    | .ok E1 => TopRun E1 stk bs' s'
-    | .error .uncapped => True
-    | .error .name => False := by
+    | .ok E1 => TopRun r E1 stk bs' s'
+    | .error x => ErrOk x := by
   obtain ⟨ctx, hs, hr⟩ := hp
   have hbody := hb.live _ _ _ _ E hr.live hr.ref h
-  obtain ⟨hst, _⟩ := hb.struct _ _ _ _ h
+  obtain ⟨⟨hst, _⟩, _⟩ := hb.struct _ _ _ _ h
   cases hN : bodyN E with
   | error x =>
     rw [hN] at hbody
-    cases x with
-    | name => exact hbody.elim
-    | uncapped => trivial
+    exact hbody
   | ok E1 =>
     rw [hN] at hbody
     exact ⟨ctx, by rw [hst, hs], ⟨hr.isIf, hr.og, hr.cond, hbody.1, hbody.2, hr.nd⟩⟩
 
-theorem for_iter_run {stk : List BCtx} {env : BEnv} {lv : Nat} {st : LinComb}
+theorem for_iter_run {r : Nat} {stk : List BCtx} {env : BEnv} {lv : Nat} {st : LinComb}
     {body : BEnv → BSt → M BSt} {bodyN : Nat → NEnv → NM NEnv}
-    (hb : ∀ ix : Nat, BodyOk (body { env with lvs := (lv, (ix : Int)) :: env.lvs }) (bodyN ix)) :
-    ∀ (n ix : Nat) {E : NEnv} {bs bs' : BSt} {s s' : St}, TopRun E stk bs s → (ix : Int) ≤ st.value →
+    (hb : ∀ ix : Nat, BodyOk r (body { env with lvs := (lv, (ix : Int)) :: env.lvs }) (bodyN ix)) :
+    ∀ (n ix : Nat) {E : NEnv} {bs bs' : BSt} {s s' : St}, TopRun r E stk bs s → (ix : Int) ≤ st.value →
       st.value ≤ ((ix + n : Nat) : Int) →
       iterM n (forRound env lv (.lc st) body) ix bs s = .ok (bs', s') →
-      LoopPost (nIter (st.value.toNat - ix) bodyN ix E) stk bs' s'
+      LoopPost r (nIter (st.value.toNat - ix) bodyN ix E) stk bs' s'
   | 0, ix, E, bs, bs', s, s', hp, h1, h2, h => by
     unfold iterM at h
     obtain ⟨rfl, rfl⟩ := pure_ok' h
@@ -395,9 +398,10 @@ theorem for_iter_run {stk : List BCtx} {env : BEnv} {lv : Nat} {st : LinComb}
     obtain ⟨c, t1, hc, hround⟩ := bind_ok.mp hround
     obtain ⟨b1, t2, hw, hbody⟩ := bind_ok.mp hround
     obtain ⟨ctx, hs, hr⟩ := hp
-    obtain ⟨sm, r, rfl, vr⟩ := neCmp_live hr.live hc
-    have hp' : TopRun E stk bs t1 := ⟨ctx, hs, ⟨hr.isIf, hr.og, hr.cond, hr.live.same sm, hr.ref, hr.nd⟩⟩
-    obtain ⟨a1, a0⟩ := bWhileNext_run hp' hw
+    obtain ⟨sm, l, rfl, vr⟩ := neCmp_live hr.live hc
+    have hp' : TopRun r E stk bs t1 := ⟨ctx, hs, ⟨hr.isIf, hr.og, hr.cond, hr.live.same sm, hr.ref, hr.nd⟩⟩
+    obtain ⟨nw, hnw, a1, a0⟩ := bWhileNext_run hp' hw
+    cases hnw
     by_cases heq : (ix : Int) = st.value
     · -- the native loop has made all its rounds
       have hz : st.value.toNat - ix = 0 := by omega
@@ -410,33 +414,32 @@ theorem for_iter_run {stk : List BCtx} {env : BEnv} {lv : Nat} {st : LinComb}
       cases hN : bodyN ix E with
       | error x =>
         rw [hN] at hrun
-        cases x with
-        | name => exact hrun.elim
-        | uncapped => trivial
+        exact hrun
       | ok E1 =>
         rw [hN] at hrun
         exact for_iter_run hb n (ix+1) hrun (by push_cast; omega) (by push_cast at h2 ⊢; omega) hrest
 
 /-- a whole `for` statement whose bound is inside its cap -/
-theorem for_stmt {env : BEnv} {lv : Nat} {st : LinComb} {mx : Nat}
+theorem for_stmt {r : Nat} {env : BEnv} {lv : Nat} {st : LinComb} {mx : Nat}
     {body : BEnv → BSt → M BSt} {bodyN : Nat → NEnv → NM NEnv}
-    (hb0 : BodyOk (body { env with lvs := (lv, 0) :: env.lvs }) (bodyN 0))
-    (hb : ∀ ix : Nat, BodyOk (body { env with lvs := (lv, (ix : Int)) :: env.lvs }) (bodyN ix))
-    {E : NEnv} {bs bs' : BSt} {s s' : St} (hl : Live s) (hr : RefV bs.bv.vals E)
+    (hb0 : BodyOk r (body { env with lvs := (lv, 0) :: env.lvs }) (bodyN 0))
+    (hb : ∀ ix : Nat, BodyOk r (body { env with lvs := (lv, (ix : Int)) :: env.lvs }) (bodyN ix))
+    {E : NEnv} {bs bs' : BSt} {s s' : St} (hl : Live r s) (hr : RefV r bs.bv.vals E)
     (hcap : 0 ≤ st.value ∧ st.value ≤ mx)
     (h : (do let c0 ← cmpV .ne (.int 0) (.lc st)
              let bs ← bWhilePush c0 bs
              let bs ← body { env with lvs := (lv, 0) :: env.lvs } bs
              let bs ← iterM (mx - 1) (forRound env lv (.lc st) body) 1 bs
              bEndwhile bs) s = .ok (bs', s')) :
-    Post (nIter st.value.toNat bodyN 0 E) bs'.bv.vals s' := by
+    Post r (nIter st.value.toNat bodyN 0 E) bs'.bv.vals s' := by
   obtain ⟨c0, s1, h1, ha⟩ := bind_ok.mp h
   obtain ⟨bs1, s2, h2, hb'⟩ := bind_ok.mp ha
   obtain ⟨bs2, s3, h3, hc'⟩ := bind_ok.mp hb'
   obtain ⟨bs3, s4, h4, hend⟩ := bind_ok.mp hc'
   clear h ha hb' hc'
-  obtain ⟨sm, r, rfl, vr⟩ := neCmp_live (ix := 0) hl h1
-  obtain ⟨a1, a0⟩ := bWhilePush_live (hl.same sm) hr h2
+  obtain ⟨sm, l, rfl, vr⟩ := neCmp_live (ix := 0) hl h1
+  obtain ⟨cl, hcl, _, a1, a0⟩ := bWhilePush_live (hl.same sm) hr h2
+  cases hcl
   by_cases heq : ((0 : Nat) : Int) = st.value
   · have hz : st.value.toNat = 0 := by omega
     rw [hz]
@@ -449,20 +452,16 @@ theorem for_stmt {env : BEnv} {lv : Nat} {st : LinComb} {mx : Nat}
     cases hN : bodyN 0 E with
     | error x =>
       rw [hN] at hrun
-      cases x with
-      | name => exact hrun.elim
-      | uncapped => trivial
+      exact hrun
     | ok E1 =>
       rw [hN] at hrun
       have hpost := for_iter_run hb (mx - 1) 1 hrun (by omega) (by omega) h4
-      show Post (nIter (st.value.toNat - 1) bodyN (0+1) E1) bs'.bv.vals s'
+      show Post r (nIter (st.value.toNat - 1) bodyN (0+1) E1) bs'.bv.vals s'
       cases hF : nIter (st.value.toNat - 1) bodyN (0+1) E1 with
       | error x =>
         rw [show (0 + 1 : Nat) = 1 from rfl] at hF
         rw [hF] at hpost
-        cases x with
-        | name => exact hpost.elim
-        | uncapped => trivial
+        exact hpost
       | ok EF =>
         rw [show (0 + 1 : Nat) = 1 from rfl] at hF
         rw [hF] at hpost
